@@ -74,6 +74,9 @@ def run(tier):
                  # long records with short segments: top bins have K far above the NumPy kernels' chunk sizes (8192/16384/32768)
                  extra=[dict(N=150000, fs=1.0, data="drift", sched="ltf", win="hann", order=o, backend="numpy", Jdes=12, Kdes=20, Lmin=1, psll=120)
                         for o in ((-1, 2) if tier == "quick" else (-1, 0, 1, 2))] +
+                       # windows passed as the scipy function itself (the configured window is fn(L), whatever keywords fn also accepts)
+                       [dict(N=3000, fs=2.0, data="filtered", sched=sc, win=wn, order=0, backend=b, Jdes=30, Kdes=5, Lmin=16, psll=120)
+                        for (sc, wn, b) in (("ltf", "sp:blackmanharris", "numba"), ("vectorized_ltf", "sp:hann", "numpy"))] +
                        # constant offsets 1e12 times the fluctuations, all bins outside the 200 dB main lobe; reference = the definition in long double
                        [dict(N=60000, fs=10.0, data="hugeoffset", sched="ltf", win="kaiser", order=0, backend="numpy", Jdes=40, Kdes=20, Lmin=1, psll=200,
                              refdef=True, bmin=10.0)])
